@@ -150,6 +150,8 @@ def gen_case(rng, root, family, tier):
         edited = "content" if (before != after or err) else "parse_equal"
         desc["classified"] = edited
     exp_ok = expected_accept(scn, base_content, edited, lt)
+    if family == "sig" and (desc.get("edit") or {}).get("sig_edit") == "value_text":
+        exp_ok = False        # (the text of a signature value was edited: not the signature that was made; the file does not even load)
     if owners and mname == "expired" and gpg_signer is master:
         # the verifier's key is past its validity period: a signature made with it is not a valid signature any more
         # (the signing subkey of that key carries no period of its own in the exported bundle: DESIGN 10.3)
